@@ -44,4 +44,6 @@ def code_to_float(c: Any) -> float:
         return float("nan")
     if c == "inf":
         return float("inf")
+    if isinstance(c, str) and c.startswith("m"):
+        return 1.0 - int(c[1:]) * 2.0**-20  # micro steps: exact in float32
     return int(c) / 64.0
